@@ -229,11 +229,17 @@ CONTRADICTIONS = [
     ([], [["bold", V(False)], ["style", S("bold")]]), ([], [["fg", S("red")], ["style", S("blue")]]),
     ([S("bold")], [["bold", V(1)]]), ([S("red"), S("bold"), S("nope")], []), ([S("red")], [["bold", V(True)], ["colour", S("x")]]),
     ([S("Red"), S("on_blue"), S("ON_GREEN")], []), ([S("RED"), S("blue")], []),
+    # an upper/title-case style name next to the SAME style keyword False / non-bool: whether the name is read as the style
+    # (contradiction) or not at all (unknown name), it must raise - never return a value
+    ([S("Bold")], [["bold", V(False)]]), ([S("BOLD")], [["bold", V(False)]]), ([], [["style", S("BOLD")], ["bold", V(False)]]),
+    ([S("BOLD")], [["bold", V(0)]]), ([S("Underline")], [["underline", V(False)]]), ([S("Invert")], [["invert", V(None)]]),
+    ([S("RED")], [["fg", S("blue")]]), ([S("On_Red")], [["bg", V(44)]]),
 ]
 # malformed calls through a fmtfunc: (func, pos, kw)
 MALFORMED_FUNC = [("red", [S("blue")], []), ("red", [], [["fg", S("blue")]]), ("bold", [], [["bold", V(False)]]),
                   ("red", [], [["style", V(5)]]), ("plain", [S("nope")], []), ("plain", [], [["fg", V(True)]]),
-                  ("underline", [], [["underline", V(0)]]), ("on_dark", [], [["bg", S("red")]])]
+                  ("underline", [], [["underline", V(0)]]), ("on_dark", [], [["bg", S("red")]]),
+                  ("red", [S("Underline")], [["underline", V(False)]]), ("plain", [S("Bold")], [["bold", V(False)]])]
 # rejected today, but not malformed under every reading: (pos, kw) - representation-level tie only, no oracle verdict
 REJECTED_SPELLINGS = [(p, []) for p in ([S("onred")], [S("on red")], [S(" red")], [S("red ")], [S("31")], [S("bold ")])] + \
     [([], [[k, v]]) for k, v in (("fg", S("RED")), ("fg", S("Red")), ("fg", S("31")), ("fg", S(" red")),
@@ -370,6 +376,12 @@ def mk_cases(ctx):
     ctx.exhaustive.append("specs applied to a plain str carrying SGR sequences (4 rendered strings): %d" % ns)
     for f in lays:
         cases.append(dict(op="shared2", f=f))
+    # formatting applied to EMPTY text: one empty run carrying exactly the named attributes, which a later
+    # copy_with_new_str keeps and shared_atts reports
+    for sp in spool + [c2 for a, b in itertools.combinations([x for x in spool if x["sp"] in ("pos", "kwFalse", "func")], 2)
+                       if not (set(a["named"]) & set(b["named"])) for c2 in [combine(a, b)] if c2][:150]:
+        for tgt in ("str", "run", "two"):
+            cases.append(dict(op="applyempty", tgt=tgt, spec=sp, valid=True))
     # seeded random
     r = ctx.rng
     for _ in range(4000 if ctx.thorough else 600):
@@ -426,6 +438,9 @@ def run_impl(c):
         return call_spec(observe(mid) if obs else mid, c["specs"][1])
     if op == "parse":
         return dict(parse_args(tuple(mkval(v) for v in c["pos"]), {k: mkval(v) for k, v in c["kw"]}))
+    if op == "applyempty":
+        tgt = {"str": "", "run": mk_fmt([("", {})]), "two": mk_fmt([("", {}), ("", {})])}[c["tgt"]]
+        return call_spec(tgt, c["spec"])
     if op == "applystr":
         return call_spec(str(mk_fmt(c["g"])), c["spec"])
     if op == "applystr-named":
@@ -558,6 +573,19 @@ def _oracle(c):
         exc = None
     except Exception as e:  # noqa: BLE001
         r, exc = None, e
+    if op == "applyempty":
+        if exc is not None:
+            return "formatting applied to empty text raised %s: %s" % (type(exc).__name__, exc)
+        named = c["spec"]["named"]
+        want = [("", named)] * (2 if c["tgt"] == "two" else 1)
+        if wire.fmt_chunks(r) != want:
+            return "formatting applied to empty text gives runs %r, expected %r" % (wire.fmt_chunks(r), want)
+        if dict(r.shared_atts) != named:
+            return "shared_atts of formatted empty text is %r, applied %r" % (dict(r.shared_atts), named)
+        again = r.copy_with_new_str("xyz")
+        if cells(again) != [(ch, tuple(sorted(named.items()))) for ch in "xyz"]:
+            return "copy_with_new_str on formatted empty text gives %r, the formatting applied was %r" % (cells(again), named)
+        return None
     if op == "applystr":
         if exc is not None:
             return "fmtstr on a str with SGR sequences raised %s: %s" % (type(exc).__name__, exc)
@@ -688,7 +716,7 @@ def check(ctx):
     cases = mk_cases(ctx)
     tied = []
     for c in cases:
-        if c["op"] == "shared2":
+        if c["op"] in ("shared2", "applyempty"):
             continue
         if c["op"] == "applystr":
             tied.append(dict(c, op="applystr-named"))
@@ -753,7 +781,7 @@ def search(ctx):
 def replay(payload):
     c = payload["case"]
     out = dict(case=c, oracle=oracle(c))
-    if c["op"] not in ("nest", "shared2", "applystr"):
+    if c["op"] not in ("nest", "shared2", "applystr", "applyempty"):
         out["implementation"] = impl(c)
         out["model_request"] = line(c)
     return out
